@@ -18,49 +18,49 @@ type Profile struct {
 }
 
 type fnInfo struct {
-	name  string
-	idx   int
-	arity int
+	name   string
+	idx    int
+	arity  int
 	vararg bool
-	ret   string // "int" | "none" | "pair"
-	encl  int    // index of the directly enclosing function
+	ret    string // "int" | "none" | "pair"
+	encl   int    // index of the directly enclosing function
 }
 
 // G is the constructive program generator. Every program it returns parses and
 // terminates by construction (loops are counter-guarded, calls only go to functions
 // created earlier in the text, recursion carries fuel).
 type G struct {
-	t       *rapid.T
-	prof    Profile
-	nextID  int64
-	nextVal int64
-	nextFn  int
-	nextCtr int
-	nextMod int
+	t        *rapid.T
+	prof     Profile
+	nextID   int64
+	nextVal  int64
+	nextFn   int
+	nextCtr  int
+	nextMod  int
 	escaping []string // function names pre-declared at top level so closures outlive their block
-	Feat    map[string]int
+	Feat     map[string]int
 }
 
 type gctx struct {
-	depth   int
-	inLoop  bool
-	canRet  bool
-	ret     string // return kind of the enclosing function ("int" at top level)
-	fns     []fnInfo
-	fnIdx   int // index of the enclosing function (calls only to smaller indices); big at top level
-	flat    bool // inside a multi-entry map loop body: only order-insensitive statements
-	mods    []string
-	anc     []int // indices of the enclosing functions (never called: no recursion cycles)
+	depth  int
+	inLoop bool
+	canRet bool
+	ret    string // return kind of the enclosing function ("int" at top level)
+	fns    []fnInfo
+	fnIdx  int  // index of the enclosing function (calls only to smaller indices); big at top level
+	flat   bool // inside a multi-entry map loop body: only order-insensitive statements
+	mods   []string
+	anc    []int // indices of the enclosing functions (never called: no recursion cycles)
 }
 
 var pool = []string{"a", "b", "c", "d"}
 
 func (g *G) n(lo, hi int, label string) int { return rapid.IntRange(lo, hi).Draw(g.t, label) }
-func (g *G) chance(pct int) bool              { return rapid.IntRange(0, 99).Draw(g.t, "pct") < pct }
-func (g *G) name() string                     { return rapid.SampledFrom(pool).Draw(g.t, "name") }
-func (g *G) id() int64                        { g.nextID++; return g.nextID }
-func (g *G) val() *N                          { g.nextVal++; return Int(g.nextVal) }
-func (g *G) feat(s string)                    { g.Feat[s]++ }
+func (g *G) chance(pct int) bool            { return rapid.IntRange(0, 99).Draw(g.t, "pct") < pct }
+func (g *G) name() string                   { return rapid.SampledFrom(pool).Draw(g.t, "name") }
+func (g *G) id() int64                      { g.nextID++; return g.nextID }
+func (g *G) val() *N                        { g.nextVal++; return Int(g.nextVal) }
+func (g *G) feat(s string)                  { g.Feat[s]++ }
 
 // Generate builds a whole program.
 func Generate(t *rapid.T, prof Profile) ([]*N, map[string]int) {
